@@ -140,3 +140,15 @@ Theorem C01_fill_polygon_coverage_aliased : forall w h p, 0 <= w -> 0 < h -> is_
       else v = 0.
 Proof. exact fill_polygon_coverage_aliased. Qed.
 Print Assumptions C01_fill_polygon_coverage_aliased.
+
+(* ---- quarter-grid vertices reach the rasteriser exactly (GridProofs.v) ---- *)
+Require Import RQ.UserSpace RQ.PathRange RQ.GridProofs.
+
+(* (10) a vertex whose coordinates are quarter-pixel multiples (n/4 as finite floats) is handed to the rasteriser as
+   exactly (nx, ny), also through the identity transform fill applies: the integers of poly_segs in (7)-(9) ARE the
+   polygon's quarter-grid coordinates *)
+Theorem C01_quarter_grid_vertices_convert_exactly : forall q nx ny, fquarter (px q) nx -> fquarter (py q) ny ->
+  i32_min <= nx <= i32_max -> i32_min <= ny <= i32_max ->
+  f32_to_dot2 (px (xf_point xf_identity q)) = nx /\ f32_to_dot2 (py (xf_point xf_identity q)) = ny.
+Proof. exact dot2_quarter_identity. Qed.
+Print Assumptions C01_quarter_grid_vertices_convert_exactly.
